@@ -15,7 +15,7 @@ import subprocess
 
 from . import common
 
-MODULES = ["CoapVerif.Props.C18", "CoapVerif.Findings.C18"]
+MODULES = ["CoapVerif.Props.C18", "CoapVerif.Props.C18Runner", "CoapVerif.Findings.C18"]
 GENERATED = ["Monitor.lean"]
 
 
@@ -173,6 +173,7 @@ def explore(ctx, art):
         import re
         clause = re.sub(r"\d+", "N", clause)[:70]
         ctx.violations.append(common.Violation("monitor", "C18:%s" % clause, what, {"input": cl[:first] + ["end"], "kinds": sorted(kinds)}))
+    runner_check(ctx, art["test"], art.get("driver"), rng, thorough, "C18", "closed-at-first-tick-after-period")
     # datagram server probe (real loopback socket, real time): known finding O3
     outp = os.path.join(ctx.work, "server.out")
     try:
@@ -208,6 +209,58 @@ def explore(ctx, art):
         ctx.sample({"history": cl, "kinds": sorted(kinds)})
 
 
+
+def runner_check(ctx, test_exe, driver, rng, thorough, prop, clause):
+    """Housekeeping runners (pkg/runner/periodic shared ticker, default goroutine-per-registration runner): register / finish /
+    tick histories on the real runners (harness/c18 TestC18Runner, synctest) against Model/Runner.lean, which is the
+    specification "every live registration is called exactly once per period" (Props/C18Runner.lean).  Used by C18 (ticks
+    that drive the monitors) and by C09 (the sweep that completes a closed datagram peer's shutdown)."""
+    rl, rowner, rcases = [], [], []
+    for ci in range(600 if thorough else 120):
+        kind = rng.choice(["shared", "shared", "default"])
+        cl = ["rcfg " + kind]
+        live, nxt = [], 1
+        for _ in range(rng.randrange(3, 16)):
+            r = rng.random()
+            if r < 0.35 or not live:
+                cl.append("reg %d" % nxt)
+                live.append(nxt)
+                nxt += 1
+            elif r < 0.55:
+                cl.append("fin %d" % rng.choice(live))
+            else:
+                cl.append("tick")
+        cl.append("tick")
+        rcases.append(cl)
+        for l in cl:
+            rl.append(l)
+            rowner.append(ci)
+    rl.append("end")
+    rowner.append(-1)
+    rimpl = common.run_test_harness(ctx, test_exe, "TestC18Runner", rl, timeout=600, tag="runner")
+    if rimpl is None or len(rimpl) != len(rl) or not driver:
+        return
+    rc, rmodel, _ = common.pipe_lines([driver, "runner"], rl)
+    if rc or len(rmodel) != len(rl):
+        ctx.broken.append(("model", "housekeeping-runner driver run failed", ""))
+        return
+    seen_bad = set()
+    for i, (l, o, m) in enumerate(zip(rl, rimpl, rmodel)):
+        ci = rowner[i]
+        if ci < 0 or ci in seen_bad or o == m:
+            continue
+        seen_bad.add(ci)
+        if len(seen_bad) > 6:
+            break
+        first = sum(1 for k in range(i + 1) if rowner[k] == ci)
+        kind = rcases[ci][0].split()[1]
+        what = ("housekeeping runner (%s): after `%s` the functions called were `%s`, every live registration exactly once would be `%s`"
+                % (kind, l, o, m))
+        ctx.violations.append(common.Violation(clause, "%s:runner:%s" % (prop, kind), what,
+                                               {"input": rcases[ci][:first] + ["end"], "observed": o, "expected": m, "runner": True}))
+    ctx.cov["runner_cases"] = len(rcases)
+    ctx.count("runner-histories", len(rcases))
+
 def run(ctx):
     art = common.standard_prepare(ctx, MODULES, hx=False, test=True, generated=GENERATED)
     if art.get("test"):
@@ -218,6 +271,16 @@ def run(ctx):
 def replay(ctx, rep):
     art = common.standard_prepare(ctx, MODULES, hx=False, test=True, generated=GENERATED)
     lines = rep.get("input") or []
+    if lines and lines[0].startswith("rcfg"):
+        impl = common.run_test_harness(ctx, art["test"], "TestC18Runner", lines, tag="replay")
+        rc, model, _ = common.pipe_lines([art["driver"], "runner"], lines)
+        bad = 0
+        for l, o, m in zip(lines, impl, model):
+            print("%s: implementation `%s`  specification `%s`" % (l, o, m))
+            bad += o != m
+        if bad:
+            print("VIOLATION property=C18 replay=(replayed) still reproduces")
+        return 1 if bad else 0
     if not lines or not lines[0].startswith("cfg"):
         print("replay:", rep.get("what") or rep.get("no_longer_checks"))
         return 1
